@@ -18,7 +18,9 @@ use vstd::std_specs::convert::*;
 // ------------------------------------------------------------------------------------------
 // errors; anyhow façade (message text not modelled, rule R5)
 // ------------------------------------------------------------------------------------------
+#[derive(Debug)]
 pub struct BoxedErr { pub code: u64 }
+#[derive(Debug)]
 pub enum NutsError { LogpFailure(BoxedErr), SerializeFailure(), BadInitGrad(BoxedErr) }
 pub struct DivergenceInfo { pub code: u64 }
 impl Clone for DivergenceInfo {
